@@ -73,6 +73,7 @@ a regular expression, so the synchronization above could also be achieved with:
 
     dst_job.sync(src_job, doc_sync=sync.DocSync.ByKey('foo'))
 """
+import errno
 import logging
 import os
 import re
@@ -159,7 +160,12 @@ class _DocProxy:
         return f"_DocProxy({repr(self.doc)})"
 
     def __getitem__(self, key):
-        return self.doc[key]
+        value = self.doc[key]
+        if self.dry_run and isinstance(value, Mapping):
+            # Nested mappings must be protected as well, otherwise a dry run
+            # would modify them through the returned (live) object.
+            return _DocProxy(value, dry_run=True)
+        return value
 
     def __setitem__(self, key, value):
         logger.more(f"Set '{key}'='{value}'.")
@@ -172,7 +178,8 @@ class _DocProxy:
 
     def clear(self):
         """Clear proxy data."""
-        self.doc.clear()
+        if not self.dry_run:
+            self.doc.clear()
 
     def update(self, other):
         """Update proxy data with other."""
@@ -274,7 +281,7 @@ class _FileModifyProxy:
     def copy(self, src, dst):
         """Copy src to dst."""
         if self.dry_run and self.root is not None:
-            print(_safe_relpath(src, self.root))
+            print(os.path.relpath(src, self.root))
         if os.path.islink(src) and not self.follow_symlinks:
             link_target = os.readlink(src)
             logger.more(
@@ -322,6 +329,21 @@ class _FileModifyProxy:
     def copytree(self, src, dst, **kwargs):
         """Copy tree src to dst."""
         logger.more(f"Copy tree '{_safe_relpath(src)}' -> '{_safe_relpath(dst)}'.")
+        if self.dry_run:
+            # shutil.copytree would create the directories: only walk the source.
+            if os.path.exists(dst):
+                raise FileExistsError(errno.EEXIST, os.strerror(errno.EEXIST), dst)
+            ignore = kwargs.get("ignore")
+            for root, dirs, files in os.walk(src):
+                ignored = set(ignore(root, dirs + files)) if ignore is not None else ()
+                dirs[:] = [d for d in dirs if d not in ignored]
+                for fn in files:
+                    if fn not in ignored:
+                        self.copy(
+                            os.path.join(root, fn),
+                            os.path.join(dst, os.path.relpath(root, src), fn),
+                        )
+            return
         shutil.copytree(src, dst, copy_function=self.copy, **kwargs)
 
     @contextmanager
@@ -666,6 +688,13 @@ def sync_jobs(
         logger.debug(f"Synchronizing job '{src}' (dry run)...")
     else:
         logger.debug(f"Synchronizing job '{src}'...")
+
+    if proxy.dry_run and not os.path.isdir(dst.path):
+        # The destination job does not exist yet. A real run would initialize
+        # it and copy everything; a dry run must not create it.
+        if os.path.isdir(src.path):
+            proxy.copytree(src.path, dst.path)
+        return
 
     if os.path.isdir(src.path):
         if not dry_run:
